@@ -5,29 +5,29 @@ From verif Require Import lib.Base lib.ListX model.C35_Bal model.C35_Inline mode
 Open Scope nat_scope.
 
 Lemma parse_text_progress text b p : p <= snd (parse_text text b p).
-Proof. unfold parse_text. cbv zeta. destruct (nth_is _ text 10); simpl; lia. Qed.
+Proof. unfold parse_text. cbv zeta. destruct (nth_is _ text 10); cbn [snd]; apply Nat.le_add_r. Qed.
 
 Lemma inline_step_progress text pos : pos < snd (inline_step text pos).
 Proof.
-  unfold inline_step. destruct (nth_error text pos) as [b|]; [|simpl; lia].
+  unfold inline_step. destruct (nth_error text pos) as [b|]; [|cbn [snd]; lia].
   destruct ((b =? 42)%N || (b =? 95)%N).
   { cbv zeta. destruct (cls_at text _) as [sp pp]. destruct (cls_at text _) as [sn pn].
-    destruct (can_open_close _ sp pp sn pn). simpl. lia. }
+    destruct (can_open_close _ sp pp sn pn). cbn [snd]. lia. }
   destruct (b =? 96)%N.
   { cbv zeta. destruct (findBacktickRun text _ _).
-    - simpl. lia.
+    - cbn [snd]. lia.
     - pose proof (parse_text_progress text pos (Nat.max (S pos) (pos + span is_bt (skipn pos text)))). lia. }
   destruct (b =? 38)%N.
   { cbv zeta. destruct (Nat.eqb (char_ref_len (skipn pos text)) 0) eqn:E.
     - pose proof (parse_text_progress text pos (S pos)). lia.
-    - apply Nat.eqb_neq in E. simpl. lia. }
+    - apply Nat.eqb_neq in E. cbn [snd]. lia. }
   destruct (b =? 92)%N.
   { destruct (nth_error text (S pos)) as [d|].
-    - destruct (d =? 10)%N; [simpl; lia|]. destruct (is_ascii_punct d).
+    - destruct (d =? 10)%N; [cbn [snd]; lia|]. destruct (is_ascii_punct d).
       + pose proof (parse_text_progress text (S pos) (S (S pos))). lia.
       + pose proof (parse_text_progress text pos (S pos)). lia.
     - pose proof (parse_text_progress text pos (S pos)). lia. }
-  destruct (b =? 10)%N; [simpl; lia|].
+  destruct (b =? 10)%N; [cbn [snd]; lia|].
   pose proof (parse_text_progress text pos (S pos)). lia.
 Qed.
 
